@@ -74,7 +74,8 @@ CLAIMS = {
     'C04': ('proof', 'PARTIAL. Theorem C04_alu_arms: for each of the 50 ALU opcodes and all operand values the Cranelift IR built by translate_program (regenerated into Coq '
             'on every run; value semantics of the IR in ClirSem.v, traps on zero divisors modelled) defines the destination register to exactly the ISA value, and never '
             'traps; theorem C04_jump_conditions: for each of the 44 conditional jumps (the shared arm partially evaluated per opcode) the value handed to brif is '
-            'non-zero iff the ISA condition holds. Block structure, memory arms (their bounds check is C11), helper calls and Cranelift code generation are not modelled: compiled code is executed '
+            'non-zero iff the ISA condition holds; theorem C04_memory_accesses: each of the 22 load / store / atomic-add arms performs the ISA access (kind, width, '
+            'effective address, value modulo width, zero-extended result, destination). Block structure, the load / store instructions themselves (their bounds check is C11), helper calls and Cranelift code generation are not modelled: compiled code is executed '
             'against the interpreter (= ISA by C01) on the same corpus as C03; programs with local calls must be refused (ERR) by compilation. This search found that '
             'every 64-bit conditional jump was compiled as its 32-bit variant (fixed: 742bb11).',
             'IR semantics hand-modelled; IR -> machine code trusted; non-ALU arms by differential execution.'),
@@ -82,7 +83,8 @@ CLAIMS = {
             'iconst/iadd/icmp/band/bor/trapz) lets execution continue iff the access [a, a+size), a = (base+offset) mod 2^64, does not wrap and lies entirely in the '
             'stack, the packet (when present) or the metadata buffer (when present) -- for every base, offset, width and region layout; C11_regions: the region '
             'variables are the slices passed and the 512-byte slot; C11_check_precedes_access: reg_load/reg_store/reg_atomic_add check first, with the type, base '
-            'and offset of the access they perform. Compiled code is run in a child against guard pages on the address grid and compared with the interpreter\'s '
+            'and offset of the access they perform; C11_checked_access_is_the_isa_access: width and effective address of all 22 memory opcodes (incl. '
+            'absolute / indirect loads) are the ISA\'s. Compiled code is run in a child against guard pages on the address grid and compared with the interpreter\'s '
             'decision (C02 theorem) and with the IR model. PARTIAL in that Cranelift\'s code generation is trusted (exercised, not verified).',
             'Cranelift IR semantics modelled by hand (ClirSem.v); IR -> machine code trusted.'),
     'C12': ('proof', 'PARTIAL. Theorems C12_jit_jump_targets / C12_jit_call_targets: for every program accepted by the (regenerated) verifier, the target that the x86-64 JIT '
